@@ -1,7 +1,7 @@
 (* C20  TODO markers flag exactly the declarations that need manual attention (marker discipline of the generator). *)
 From Coq Require Import List String Ascii ZArith. Import ListNotations.
 From Coq Require Import List Bool.
-From SV Require Import Lib.Str Gen.Tables Model.Types Model.Api Model.Back Proofs.BackProofs.
+From SV Require Import Lib.Str Gen.Tables Model.Types Model.Naming Model.Api Model.Back Spec.Markers Proofs.BackProofs Proofs.MarkerProofs.
 
 (* flushing prints the pending markers and leaves the pending set empty *)
 Theorem C20_flush_clears : forall indent s x s', create_todo_msg indent s = Ok (x, s') -> g_todos s' = [].
@@ -25,8 +25,61 @@ Theorem C20_every_key_has_a_message :
   forallb (fun k => is_ok (todo_lookup k t_todo_messages)) raisable_keys = true.
 Proof. exact raisable_keys_have_messages. Qed.
 
+(* ---- "exactly when": the markers raised are a function of the declaration alone (Spec/Markers.v) ----
+   ext s s' L: the pending set of s' is that of s plus L (and stays duplicate-free); covers spec L: L contains every marker of
+   spec and nothing else except possibly "internal class as type" (which depends on the imports made so far). *)
+Theorem C20_type_markers : forall classes rmap nc t s x s',
+  type_string classes rmap nc t s = Ok (x, s') -> exists L, ext s s' L /\ covers (tmarks t) L.
+Proof. exact type_string_marks. Qed.
+Theorem C20_parameter_markers : forall classes rmap nc p s x s',
+  param_fields classes rmap nc p s = Ok (x, s') -> exists L, ext s s' L /\ covers (param_marks p) L.
+Proof. exact param_fields_marks. Qed.
+(* the printed block depends only on the set of pending markers *)
+Theorem C20_block_depends_on_set : forall indent L L',
+  NoDup L -> NoDup L' -> (forall k, In k L <-> In k L') -> todo_text indent L = todo_text indent L'.
+Proof. exact todo_text_set. Qed.
+(* a function or method written here, entered with nothing pending (C20_function_flushes gives that for its predecessor):
+   the text is the marker block of ITS OWN features followed by its documentation and signature, and nothing stays pending *)
+Theorem C20_function_markers : forall classes rmap nc f indent is_method in_rx s x s',
+  function_string classes rmap nc f indent is_method in_rx s = Ok (x, s') ->
+  (if negb is_method && negb in_rx then shorter_reexport (f_name f) (f_reexported_by f) s else None) = None ->
+  g_todos s = [] ->
+  exists L params tvi rs,
+    NoDup L /\ covers (func_marks nc (g_class_generics s) is_method f) L /\ g_todos s' = [] /\
+    x = todo_text indent L ++
+        sds_docstring nc (d_desc (f_doc f)) (d_examples (f_doc f)) (Some (f_params f)) (Some (f_rdocs f)) indent ++
+        indent ++ K"@Pure" ++ NL ++
+        (match fst (emit_name nc false (f_name f)) with None => [] | Some n => indent ++ name_annotation n ++ NL end) ++
+        indent ++ (if f_classm f || f_static f then K"static " else []) ++ K"fun " ++ snd (emit_name nc false (f_name f)) ++
+        tvi ++ K"(" ++ params ++ K")" ++ rs.
+Proof. exact function_string_markers. Qed.
+Theorem C20_property_markers : forall classes rmap nc f indent s x s',
+  property_string classes rmap nc f indent s = Ok (x, s') -> g_todos s = [] ->
+  exists L ts,
+    NoDup L /\ covers (property_marks f) L /\ g_todos s' = [] /\
+    x = todo_text indent L ++ sds_docstring_description (d_desc (f_doc f)) indent ++ indent ++
+        (match fst (emit_name nc false (f_name f)) with None => [] | Some n => name_annotation n ++ K" " end) ++
+        K"attr " ++ snd (emit_name nc false (f_name f)) ++ ts.
+Proof. exact property_string_markers. Qed.
+(* every written attribute of a class carries the block of its own features, whatever its neighbours raise *)
+Theorem C20_attribute_markers : forall classes rmap nc ats inner acc names s lines names' s',
+  class_attrs classes rmap nc ats inner acc names s = Ok ((lines, names'), s') -> g_todos s = [] ->
+  g_todos s' = [] /\ exists new, lines = acc ++ new /\ Forall2 (attr_line nc inner) (filter attr_rendered ats) new.
+Proof. exact class_attrs_markers. Qed.
+(* the specification is not empty: a tuple of a two-argument set and an unknown *)
+Example C20_markers_example :
+  tmarks (TTuple [TSet [TNamed (K"int") (K"builtins.int"); TNamed (K"str") (K"builtins.str")]; TUnknown]) =
+  [K"no tuple support"; K"no set support"; K"Set"; K"unknown"].
+Proof. vm_compute. reflexivity. Qed.
 Print Assumptions C20_flush_clears.
 Print Assumptions C20_nothing_pending_nothing_printed.
 Print Assumptions C20_function_flushes.
 Print Assumptions C20_property_flushes.
 Print Assumptions C20_every_key_has_a_message.
+Print Assumptions C20_type_markers.
+Print Assumptions C20_parameter_markers.
+Print Assumptions C20_block_depends_on_set.
+Print Assumptions C20_function_markers.
+Print Assumptions C20_property_markers.
+Print Assumptions C20_attribute_markers.
+Print Assumptions C20_markers_example.
